@@ -93,50 +93,56 @@ func c05Snapshot(c *Ctx) {
 			fname := core.FuncName(fn)
 			pos := c.P.Pos(st.Pos())
 			if an.IsNilConst(st.Val) {
-				switch fn {
-				case rollback:
-					c.R.OK(rule, fname+": clears txStart", pos, "rollback ends the transaction")
-				case commit:
-					// only after the storage commit succeeded
-					var kc ssa.CallInstruction
-					for _, call := range an.Calls(fn) {
-						if an.CalleeIs(call, kvPkg, "DB", "Commit") {
-							kc = call
-						}
-					}
-					ok := false
-					why := "no kv Commit call"
-					if kc != nil {
-						ok, why = an.SuccessDominates(kc, st)
-					}
-					c.R.Cond(ok, rule, fname+": clears txStart", pos, "the snapshot is dropped only after the storage commit succeeded",
-						"the snapshot is dropped although the commit may have failed: the rollback SQLite performs next restores nothing ("+why+")")
-				default:
-					// a read-only table holds no writes of its own (every write is refused), so its
-					// transaction may simply end: accepted when the store, or every call of the
-					// function it sits in, lies on the true side of the table's ReadOnly flag
-					roF := an.LookupField(c.P, "", "S3Options", "ReadOnly")
-					isRO := func(v ssa.Value) bool { return roF != nil && an.FieldOfLoad(v) == roF }
-					guarded := an.GuardedByValue(an.Edge{From: st.Block()}, isRO, true)
-					if !guarded {
-						sites := 0
-						all := true
-						for _, caller := range c.P.RepoFuncs(an.LibraryPkg) {
-							for _, call := range an.Calls(caller) {
-								if call.Common().StaticCallee() != fn {
-									continue
-								}
-								sites++
-								if !an.GuardedByValue(an.Edge{From: call.Block()}, isRO, true) {
-									all = false
-								}
+				// where a clear may sit, decided by role and followed through helpers (a
+				// forgetSnapshot() shared by Commit and EndReadOnly is judged at each of its calls):
+				// in Rollback; in Commit after the storage commit succeeded; or on the true side of
+				// the table's ReadOnly flag (a read-only table holds no writes of its own)
+				roF := an.LookupField(c.P, "", "S3Options", "ReadOnly")
+				isRO := func(v ssa.Value) bool { return roF != nil && an.FieldOfLoad(v) == roF }
+				var okAt func(f *ssa.Function, at ssa.Instruction, depth int) (bool, string)
+				okAt = func(f *ssa.Function, at ssa.Instruction, depth int) (bool, string) {
+					switch f {
+					case rollback:
+						return true, ""
+					case commit:
+						var kc ssa.CallInstruction
+						for _, call := range an.Calls(f) {
+							if an.CalleeIs(call, kvPkg, "DB", "Commit") {
+								kc = call
 							}
 						}
-						guarded = sites > 0 && all
+						if kc == nil {
+							return false, "the snapshot is dropped although the commit may have failed: the rollback SQLite performs next restores nothing (no kv Commit call)"
+						}
+						ok, why := an.SuccessDominates(kc, at)
+						return ok, "the snapshot is dropped although the commit may have failed: the rollback SQLite performs next restores nothing (" + why + ")"
 					}
-					c.R.Cond(guarded, rule, fname+": clears txStart", pos, "the snapshot of a read-only table's transaction is dropped (nothing can have been written)",
-						"the transaction snapshot is dropped outside Commit-after-success and Rollback, and not only for a read-only table (e.g. in a deferred function): a failed commit can no longer be rolled back")
+					if an.GuardedByValue(an.Edge{From: at.Block()}, isRO, true) {
+						return true, ""
+					}
+					const outside = "the transaction snapshot is dropped outside Commit-after-success and Rollback, and not only for a read-only table (e.g. in a deferred function): a failed commit can no longer be rolled back"
+					if depth >= 3 {
+						return false, outside
+					}
+					sites := 0
+					for _, caller := range c.P.RepoFuncs(an.LibraryPkg) {
+						for _, call := range an.Calls(caller) {
+							if call.Common().StaticCallee() != f {
+								continue
+							}
+							if _, isDefer := call.(*ssa.Defer); isDefer {
+								return false, outside
+							}
+							sites++
+							if ok, why := okAt(caller, call, depth+1); !ok {
+								return false, why
+							}
+						}
+					}
+					return sites > 0, outside
 				}
+				good, why := okAt(fn, st, 0)
+				c.R.Cond(good, rule, fname+": clears txStart", pos, "the snapshot is dropped only by Rollback, by Commit after the storage commit succeeded, or for a read-only table (nothing can have been written)", why)
 				continue
 			}
 			// non-nil: must be the result of Clone of the live root, in Begin, when no snapshot exists
